@@ -69,6 +69,7 @@ func genRelList(r *rng.R) []string {
 func genMetaInfo(r *rng.R, info *nfpm.Info) {
 	info.Name = rng.Pick(r, []string{"foo", "foo-bar", "lib_x+1", "a.b2"})
 	info.Description = genDescription(r)
+	info.Platform = rng.Pick(r, []string{"linux", "linux", "linux", "freebsd", "darwin"}) // apk and archlinux reject anything but linux
 	info.Maintainer = rng.Pick(r, []string{"Jane Doe <jane@example.com>", "", "  ", "jane@example.com", "Ünï Cödé <u@example.org>"})
 	info.Vendor = rng.Pick(r, []string{"", "ACME Corp"})
 	info.Homepage = rng.Pick(r, []string{"", "https://example.com/x?y=1"})
